@@ -134,6 +134,9 @@ func (vc *VC) execCallCommon(st *State, call *ssa.CallCommon, instr ssa.Instruct
 	}
 	if ci.contract == nil {
 		if vc.isEffectFree(ci.key) {
+			// hooks and site assertions attached "before" this call still run (the "after" ones run from the pending-hook
+			// mechanism for every call instruction)
+			vc.siteGhost(st, &ci, instr, true)
 			return vc.freshResults(st, resTuple, "r_"+shortName(ci.key))
 		}
 		if ci.fn != nil && ci.fn.Blocks != nil && vc.canInline(ci.fn) {
